@@ -59,6 +59,8 @@ def _builtin_observer_query_traces(chk, behs, rng, queries, start_tid, source):
                 s.dispatch(a["j"], a["p"], a["m"])
             elif a["a"] == "Reset":
                 s.reset()
+            elif a["a"] == "R":
+                s.dispatch(a["j"], a["p"], a["m"])
             else:
                 continue
             for q in queries(rng):
@@ -66,6 +68,13 @@ def _builtin_observer_query_traces(chk, behs, rng, queries, start_tid, source):
         traces.append(s.trace())
     chk.monitor(traces, source=source)
     return len(traces)
+
+
+BIG = (2 ** 24 + 1, 2 ** 25 + 3, 2 ** 24 + 6, 1, 7, 0)     # time in fine units: beyond what a 32-bit float resolves
+
+
+def _big_duration_behaviours(rng, n, **kw):
+    return [random_behaviour(rng, max_jobs=4, max_ops=4, max_m=3, durs=BIG, **kw) for _ in range(n)]
 
 
 def _n(chk, quick, thorough):
@@ -98,7 +107,11 @@ def c01():
     rb = [random_behaviour(rng, faults=0.05, max_jobs=5, max_ops=5, max_m=4)
           for _ in range(_n(chk, 150, 1500))]
     qp = lambda r: [r.choice(scenarios.QUERIES)] if r.random() < 0.5 else []  # noqa: E731
-    _run_traces(chk, rb, "random-large+queries-in-between", start_tid=n + 1, query_probe=qp, arg_probe=True)
+    n += _run_traces(chk, rb, "random-large+queries-in-between", start_tid=n + 1, query_probe=qp, arg_probe=True)
+    n += _run_traces(chk, _big_duration_behaviours(rng, _n(chk, 40, 300), faults=0.05), "durations-in-fine-time-units",
+                     start_tid=n + 1, query_probe=qp)
+    _builtin_observer_query_traces(chk, rb[: _n(chk, 50, 300)], rng, lambda r: [], n + 1,
+                                   "with-the-library's-own-observers-subscribed")
     return chk.finish(
         "TLC: every reachable state of the Dispatcher spec over the instance family x filter "
         "compositions; traces: TLC-simulated behaviours (every prefix length) replayed on the real "
@@ -128,7 +141,11 @@ def c02():
         b["kinds"] = ["hist"]
         b["hist"] = [{"a": "Create", "o": 1}] + b["hist"]
         rb.append(b)
-    _run_traces(chk, rb, "random-large+replay", start_tid=n + 1, replay_probe=True, query_probe=qp, arg_probe=True)
+    n += _run_traces(chk, rb, "random-large+replay", start_tid=n + 1, replay_probe=True, query_probe=qp, arg_probe=True)
+    n += _run_traces(chk, _big_duration_behaviours(rng, _n(chk, 40, 300), resets=0.03, faults=0.1),
+                     "durations-in-fine-time-units", start_tid=n + 1, query_probe=qp, arg_probe=True)
+    _builtin_observer_query_traces(chk, rb[: _n(chk, 50, 300)], rng, lambda r: [], n + 1,
+                                   "with-the-library's-own-observers-subscribed")
     return chk.finish(
         "TLC: tracking = derive(schedule), forced starts, makespan in every reachable state; traces: "
         "every dispatch step compared with the specification's step, plus the recorded history "
@@ -262,6 +279,8 @@ def c09():
     rb = [random_behaviour(rng, faults=0.3, resets=0.02, kinds=("rec", "hist", "rec"), obsops=0.05,
                            max_jobs=5, max_ops=5, max_m=4) for _ in range(_n(chk, 150, 1500))]
     _run_traces(chk, rb, "random-large-faults", start_tid=n + 1, arg_probe=True)
+    _builtin_observer_query_traces(chk, rb[: _n(chk, 50, 300)], rng, lambda r: [], 50000,
+                                   "invalid-requests-with-the-library's-own-observers-subscribed")
     # the environment: steps for finished jobs, ineligible / out-of-range / negative machine ids, -1 on flexible operations
     from .echecks import env_trace, random_env_cfg
     base = n + len(rb) + 1
